@@ -2,8 +2,10 @@ package qs
 
 import (
 	"bytes"
+	"context"
 	"fmt"
 	"math/rand"
+	"path/filepath"
 
 	bleve "github.com/blevesearch/bleve/v2"
 	"github.com/blevesearch/bleve/v2/index/scorch"
@@ -12,28 +14,64 @@ import (
 )
 
 const (
-	EngScorch = "scorch"     // scorch, in memory: every batch is a segment, nothing merges
-	EngUpside = "upsidedown" // upsidedown over gtreap (bleve.NewMemOnly)
+	EngScorch = "scorch" // scorch, in memory: every batch is a segment, nothing merges
+	// scorch on disk with a forced merge in the middle of the history: merged
+	// segments are the only ones zap writes "1-hit" postings into, so this is
+	// the configuration that reaches the 1-hit cases of optimize.go/unadorned.go
+	EngScorchMerged = "scorch-merged"
+	EngUpside       = "upsidedown" // upsidedown over gtreap (bleve.NewMemOnly)
 )
 
-var Engines = []string{EngScorch, EngUpside}
+var Engines = []string{EngScorch, EngScorchMerged, EngUpside}
 
-// NewIndex opens an in-memory index of the engine. NOTE bleve.NewMemOnly is
-// upsidedown/gtreap; in-memory scorch is NewUsing("", ..., scorch, scorch).
-func NewIndex(eng string, im mapping.IndexMapping) (bleve.Index, error) {
+func IsScorch(eng string) bool { return eng == EngScorch || eng == EngScorchMerged }
+
+// NewIndex opens an index of the engine (dir is used by the disk engine only).
+// NOTE bleve.NewMemOnly is upsidedown/gtreap; in-memory scorch is
+// NewUsing("", ..., scorch, scorch).
+func NewIndex(eng string, im mapping.IndexMapping, dir string) (bleve.Index, error) {
 	switch eng {
 	case EngScorch:
 		return bleve.NewUsing("", im, scorch.Name, scorch.Name, nil)
+	case EngScorchMerged:
+		if dir == "" {
+			return nil, fmt.Errorf("engine %s needs a directory", eng)
+		}
+		return bleve.NewUsing(filepath.Join(dir, "idx"), im, scorch.Name, scorch.Name, nil)
 	case EngUpside:
 		return bleve.NewMemOnly(im)
 	}
 	return nil, fmt.Errorf("unknown engine %q", eng)
 }
 
+// ForceMerge merges the persisted segments of a scorch index into one.
+func ForceMerge(idx bleve.Index) error {
+	adv, err := idx.Advanced()
+	if err != nil {
+		return err
+	}
+	sc, ok := adv.(*scorch.Scorch)
+	if !ok {
+		return nil
+	}
+	return sc.ForceMerge(context.Background(), nil)
+}
+
 // Apply executes the history. A single-operation batch is sometimes issued
 // through Index/Delete directly (r decides) - same meaning, other code path.
 func Apply(idx bleve.Index, h History, r *rand.Rand) error {
-	for _, ops := range h {
+	return ApplyMerging(idx, h, r, -1)
+}
+
+// ApplyMerging is Apply with a forced merge after batch number mergeAfter
+// (0-based; -1 never).
+func ApplyMerging(idx bleve.Index, h History, r *rand.Rand, mergeAfter int) error {
+	for bi, ops := range h {
+		if bi > 0 && bi-1 == mergeAfter {
+			if err := ForceMerge(idx); err != nil {
+				return err
+			}
+		}
 		if len(ops) == 1 && r != nil && r.Intn(2) == 0 {
 			op := ops[0]
 			var err error
@@ -58,6 +96,9 @@ func Apply(idx bleve.Index, h History, r *rand.Rand) error {
 		if err := idx.Batch(b); err != nil {
 			return err
 		}
+	}
+	if mergeAfter >= len(h)-1 && mergeAfter >= 0 {
+		return ForceMerge(idx)
 	}
 	return nil
 }
